@@ -85,7 +85,18 @@ type Prelude struct {
 	I, I2, J                 *cadence.StructInterfaceType
 	RI                       *cadence.ResourceInterfaceType
 	CI                       *cadence.ContractInterfaceType
+
+	// further attachments: A0 (no fields) and A2 for S; AR (one field) and AR0 (no fields) for R
+	A0, A2, AR, AR0 *cadence.AttachmentType
+	// Leaf is a composite that occurs only as the optional field type of the Mix structs
+	Leaf *cadence.StructType
+	// Mix: structs with three fields – a (abstract: AnyStruct in the M family, {I} in the N
+	// family), c (concrete: Int), o (optional composite: Leaf?) – declared in every order
+	Mix []*cadence.StructType
 }
+
+// MixOrders are the field orders of the Mix structs (a = abstract, c = concrete, o = optional composite).
+var MixOrders = []string{"aco", "aoc", "cao", "coa", "oac", "oca"}
 
 func newPrelude() *Prelude {
 	p := &Prelude{}
@@ -141,6 +152,31 @@ func newPrelude() *Prelude {
 				cadence.NewEntitlementSetAuthorization(nil, []common.TypeID{EntGg, EntH, EntE}, cadence.Conjunction),
 				cadence.NewIntersectionType([]cadence.Type{p.I2, p.J, p.I})))))},
 		nil)
+	p.A0 = cadence.NewAttachmentType(LocC, "C.A0", p.S, []cadence.Field{}, nil)
+	p.A2 = cadence.NewAttachmentType(LocC, "C.A2", p.S, []cadence.Field{f("y", cadence.StringType)}, nil)
+	p.AR = cadence.NewAttachmentType(LocC, "C.AR", p.R, []cadence.Field{f("x", cadence.IntType)}, nil)
+	p.AR0 = cadence.NewAttachmentType(LocC, "C.AR0", p.R, []cadence.Field{}, nil)
+	p.Leaf = cadence.NewStructType(LocC, "C.Leaf", []cadence.Field{f("v", cadence.IntType)}, nil)
+	for _, fam := range []string{"M", "N"} {
+		var abstract cadence.Type = cadence.AnyStructType
+		if fam == "N" {
+			abstract = cadence.NewIntersectionType([]cadence.Type{p.I})
+		}
+		for _, ord := range MixOrders {
+			var fs []cadence.Field
+			for _, k := range ord {
+				switch k {
+				case 'a':
+					fs = append(fs, f("a", abstract))
+				case 'c':
+					fs = append(fs, f("c", cadence.IntType))
+				case 'o':
+					fs = append(fs, f("o", cadence.NewOptionalType(p.Leaf)))
+				}
+			}
+			p.Mix = append(p.Mix, cadence.NewStructType(LocC, "C."+fam+ord, fs, nil))
+		}
+	}
 	return p
 }
 
@@ -154,7 +190,12 @@ func setFields(t cadence.CompositeType, fs []cadence.Field) { setCompositeTypeFi
 
 // Nominal lists the nominal types in a fixed order.
 func (p *Prelude) Nominal() []cadence.Type {
-	return []cadence.Type{p.S, p.S2, p.Node, p.Box, p.Emp, p.W, p.R, p.RBox, p.Ev, p.EvA, p.Ct, p.En, p.A, p.I, p.I2, p.J, p.RI, p.CI}
+	out := []cadence.Type{p.S, p.S2, p.Node, p.Box, p.Emp, p.W, p.R, p.RBox, p.Ev, p.EvA, p.Ct, p.En, p.A, p.I, p.I2, p.J, p.RI, p.CI,
+		p.A0, p.A2, p.AR, p.AR0, p.Leaf}
+	for _, m := range p.Mix {
+		out = append(out, m)
+	}
+	return out
 }
 
 // ---------------------------------------------------------------------------
